@@ -130,6 +130,28 @@ func CrossAddons(inputs []Doc) []Doc {
 			dm["$addons"] = []any{string(ad.Key)}
 			out = append(out, Doc{Name: fmt.Sprintf("x/%s+%s", base.Name, ad.Key), Data: rebuild()})
 		}
+		// ordered pairs of the addons of the invoice's own country: definitions of
+		// several addons are merged in list order (corrections, tags, scenarios),
+		// so a helper that writes into its argument shows only for some orders
+		var own []string
+		for _, ad := range tax.AllAddonDefs() {
+			if strings.HasPrefix(string(ad.Key), cc+"-") {
+				own = append(own, string(ad.Key))
+			}
+		}
+		for _, a := range own {
+			for _, b := range own {
+				if a == b {
+					continue
+				}
+				dm, rebuild := docMap(base.Data)
+				if dm == nil {
+					continue
+				}
+				dm["$addons"] = []any{a, b}
+				out = append(out, Doc{Name: fmt.Sprintf("x/%s+%s+%s", base.Name, a, b), Data: rebuild()})
+			}
+		}
 	}
 	return out
 }
@@ -225,6 +247,12 @@ func Pipeline(d Doc) (out string) {
 		}
 	}
 	if _, ok := env.Extract().(*bill.Invoice); ok {
+		if cs, err := env.CorrectionOptionsSchema(); err != nil {
+			stage("correction-options", errText(err))
+		} else {
+			cb, _ := json.Marshal(cs)
+			stage("correction-options", string(cb))
+		}
 		for _, opt := range []struct {
 			n string
 			o schema.Option
